@@ -159,6 +159,12 @@ func genFlows(r *sim.Rand, small bool) []flowSpec {
 				q.Methods = []string{"GET"}
 			}
 			out = append(out, q)
+			if r.Chance(1, 2) {
+				// a second quota on the very same pattern, told apart by its method list only: both system flows
+				// live on one node of the filter tree
+				out[len(out)-1].Methods = []string{"GET"}
+				out = append(out, flowSpec{Name: q.Name + "t", URL: url, System: true, Methods: []string{sim.Pick(r, []string{"POST", "PUT", "DELETE"})}})
+			}
 		}
 	}
 	return out
@@ -237,7 +243,7 @@ func writeFilterRest(sb *strings.Builder, f flowSpec, ind string) {
 
 func quotaYAML(f flowSpec) string {
 	var sb strings.Builder
-	fmt.Fprintf(&sb, "quotas:\n  - id: %s\n    filter:\n      url: \"%s\"\n", f.Name, f.URL)
+	fmt.Fprintf(&sb, "  - id: %s\n    filter:\n      url: \"%s\"\n", f.Name, f.URL)
 	writeFilterRest(&sb, f, "      ")
 	sb.WriteString("    strategy:\n      fixed_window:\n        max: 100000000\n        interval: 1\n        interval_unit: hour\n")
 	return sb.String()
@@ -247,7 +253,12 @@ func buildConfig(flows []flowSpec) sim.Config {
 	cfg := sim.Config{Flows: map[string]string{}, Quotas: map[string]string{}}
 	for _, f := range flows {
 		if f.System {
-			cfg.Quotas[f.Name+".yaml"] = quotaYAML(f)
+			// a twin quota ("<name>t", same pattern, other methods) goes into its sibling's file
+			file := strings.TrimSuffix(f.Name, "t") + ".yaml"
+			if cfg.Quotas[file] == "" {
+				cfg.Quotas[file] = "quotas:\n"
+			}
+			cfg.Quotas[file] += quotaYAML(f)
 		} else {
 			cfg.Flows[f.Name+".yaml"] = flowYAML(f)
 		}
